@@ -1,6 +1,7 @@
 import PyGam.Proofs.Exposure
 import PyGam.Proofs.ExposureStats
 import Mathlib.Tactic.Ring
+import PyGam.Gen.Formulas
 /-!
 # C19 — PoissonGAM exposure is equivalent to rate modelling with exposure weights
 
@@ -404,5 +405,29 @@ example : castF32 (1/10) = 13421773/134217728 := by decide +kernel
 (`inf := 1000`): a skipped candidate, then AIC 7, then AIC 5 → the third candidate is kept; all-`inf` → none -/
 example : (Search.loop (1000 : Int) none [none, some 7, some 5]).best = some (Search.Ref.cand 2) := by decide
 example : (Search.loop (1000 : Int) none [some 1000, none, some 1000]).best = none := by decide
+
+/-! ### Second tie: the arithmetic of `_exposure_to_weights`, translated from the current source
+
+`Gen/Formulas.lean` is regenerated on every run from the abstract syntax tree of `pygam/pygam.py`:
+`Gen.exposure_to_weights_core` is the pair of arithmetic assignments of `PoissonGAM._exposure_to_weights`
+(`y = y / exposure`, `weights = weights * exposure`) and its final `return y, weights`, one entry at a time.  Validation,
+the float32 casts and the `None` defaults are the hand-written model's (`optVec`), tied by the correspondence streams. -/
+section gen_formulas
+variable [Field α] [LinearOrder α] [IsStrictOrderedRing α] [HasLogSqrt α]
+
+/-- the translated arithmetic IS the model's `exposureToWeights`, entry by entry, for every cast and every combination
+of given / omitted exposure and weights: rate = count / (cast) exposure, weight = (cast) weight × (cast) exposure, the
+model's outer float32 rounding of the product applied on top -/
+theorem gen_formula_exposure_to_weights (cast : α → α) (y : Nat → α) (e w : Option (Nat → α)) (i : Nat) :
+    ((exposureToWeights cast y e w).1 i, (exposureToWeights cast y e w).2 i)
+      = ((Gen.exposure_to_weights_core (y i) (optVec cast e i) (optVec cast w i)).1,
+         cast (Gen.exposure_to_weights_core (y i) (optVec cast e i) (optVec cast w i)).2) := rfl
+
+/-- in exact arithmetic (`cast = id`) with both vectors given, the model's result is the translated source, entrywise -/
+theorem gen_formula_exposure_to_weights_exact (y e w : Nat → α) (i : Nat) :
+    ((exposureToWeights id y (some e) (some w)).1 i, (exposureToWeights id y (some e) (some w)).2 i)
+      = Gen.exposure_to_weights_core (y i) (e i) (w i) := rfl
+
+end gen_formulas
 
 end PyGam.C19
